@@ -244,7 +244,6 @@ C17_Power ==
           /\ \A p \in ValNames(st') : \E u \in Range(ev'.end.updates) : u.p = p /\ Nat2A(u.power) = PowerOf(p)
           /\ \A u \in Range(ev'.end.updates) : u.p \in ValNames(st') \/ u.power = 0,      \* a key that is no validator any more (dropped, or retired by a key change) is removed
           [at |-> Where, updates |-> ev'.end.updates, want |-> [p \in ValNames(st') |-> PowerOf(p)]])
-C17_Step == C17_Set /\ C17_Power
 
 \* ======================================================================== C05 (candidate settings, stakes)
 CandFieldsChanged(p) == {f \in {"owner", "control", "reward", "comm", "status"} : st'.cands[p][f] # st.cands[p][f]}
@@ -267,6 +266,28 @@ C05_Stake ==
           \A t \in Stakers(st) : StakeHeld(st', t[1], t[2], t[3]) \prec StakeHeld(st, t[1], t[2], t[3]) => t[2] \in Authorized,
           [at |-> WhereTx, losers |-> {t \in Stakers(st) : StakeHeld(st', t[1], t[2], t[3]) \prec StakeHeld(st, t[1], t[2], t[3])}, authorized |-> Authorized])
 C05_StakingStep == C05_Cand /\ C05_Stake
+
+\* delegation slots: when all 1000 slots of a candidate are taken after a recalculation, nothing that was sent to the wait list
+\* in this step is worth more (in base coin) than a stake that holds a slot, and it waits with its full value
+MaxSlots == 1000
+WaitKey(w) == <<w.o, w.id, w.c>>
+WaitVal(s, k) == SumOver(SelectSeq(s.wait, LAMBDA w : WaitKey(w) = k), LAMBDA w : w.v)
+GrownWait == {WaitKey(st'.wait[i]) : i \in {j \in DOMAIN st'.wait : WaitVal(st, WaitKey(st'.wait[j])) \prec WaitVal(st', WaitKey(st'.wait[j]))}}
+\* base-coin value of an amount of coin c (exact for the base coin and for reserve ratio 100)
+Valuable(c) == c = Base \/ (c \in DOMAIN st'.coins /\ st'.coins[c].kind = "bancor" /\ st'.coins[c].crr = 100)
+BipVal(c, v) == IF c = Base THEN v ELSE (v ** st'.coins[c].res) // st'.coins[c].vol
+FullCands == {p \in DOMAIN st'.cands : Len(st'.cands[p].stakes) = MaxSlots}
+C17_Slots ==
+   Clause("C17", "FullSlotsKeepTheMostValuableStakes", IsKind("EndBlock") /\ NoPanic /\ FullCands # {} /\ GrownWait # {},
+          \A p \in FullCands : \A k \in GrownWait :
+             (k[2] = st'.cands[p].id /\ Valuable(k[3])) =>
+                LET sent == WaitVal(st', k) -- WaitVal(st, k) IN
+                /\ \A x \in Range(st'.cands[p].stakes) : (BipVal(k[3], sent) ** Nat2A(1000)) \preceq (x.bv ** Nat2A(1001))
+                \* full value: what started waiting is a whole stake or update of that owner and coin, not a part of it
+                /\ StakeHeld(st', k[2], k[1], k[3]) = Zero,
+          [at |-> Where, waiting |-> [k \in GrownWait |-> <<WaitVal(st, k), WaitVal(st', k)>>],
+           smallest |-> [p \in FullCands |-> LET vs == {x.bv : x \in Range(st'.cands[p].stakes)} IN CHOOSE m \in vs : \A y \in vs : m \preceq y]])
+C17_Step == C17_Set /\ C17_Power /\ C17_Slots
 
 StakingStep == C16_Step /\ C18_Step /\ C20_Step /\ C19_Step /\ C17_Step /\ C05_StakingStep
 =============================================================================
